@@ -470,9 +470,12 @@ def main(tier: str, replay: str | None) -> None:
     # drift (never a verdict): the model says a loss-free run is complete within the first round
     for r in recs:
         if not r["loss_times"] and not r["job"].get("race") and r["samples"]:
-            first10 = [s for s in r["samples"] if s["t"] <= 600]
+            # the generated large systems (12 zones, 8 actuators each) take longer than the modelled small ones: the
+            # requests of all pollers share one transmit queue; 10 virtual minutes + 5 per zone
+            lim = 600 + 300 * len(r["cfg"].get("zones", {}))
+            first10 = [s for s in r["samples"] if s["t"] <= lim]
             if first10 and first10[-1]["k"] != r["cfg"] and len(first10) >= 10:
-                chk.model_drift(f"loss-free run not complete after 10 virtual minutes: {json.dumps(r['cfg'])[:300]}")
+                chk.model_drift(f"loss-free run not complete after {lim // 60} virtual minutes: {json.dumps(r['cfg'])[:300]}")
     died = [r for r in recs if any(not d.endswith("CancelledError") for d in r.get("dead_pollers", []))]
     loopexc = sorted({e for r in recs for e in r["loop_exc"]})
 
